@@ -1,6 +1,6 @@
 (* Properties_C17.v — property C17: shipped rules equal their compiled source; each group is a
    documented checker. All statements are about terms regenerated from /repo on every run. *)
-From GC Require Import Base Model_IR Proofs_IR.
+From GC Require Import Base Model_IR Proofs_IR Model_Select Proofs_Select.
 From GCgen Require Import IrTables.
 
 (* The precompiled rule data built into the binaries is what compiling the rule source produces today. *)
@@ -32,6 +32,21 @@ Theorem C17_doc_cmd_lists_registry :
   doc_cmd_rows = map (fun d => (d_name d, d_tags d)) registry_docs.
 Proof. vm_compute. reflexivity. Qed.
 Print Assumptions C17_doc_cmd_lists_registry.
+
+(* The default-enabled marks of the overview page agree with the selection rule: a row carries the
+   heavy mark iff the checker is selected when no flag is given, by the CLI front-ends and by the
+   analyzer front-ends alike (Model_Select, tied to the implementation by C06's correspondence). *)
+Definition reg_checkers : list checker :=
+  map (fun d => {| cname := d_name d; ctags := d_tags d |}) registry_docs.
+Definition cli_no_flags : cli_flags := {| cf_all := false; cf_enable := None; cf_disable := None |}.
+Definition mark_agrees (nm : string * bool) : bool :=
+  existsb (fun c => String.eqb (cname c) (fst nm)
+                    && Bool.eqb (snd nm) (cli_selected reg_checkers cli_no_flags c)
+                    && Bool.eqb (snd nm) (an_selected an_default_flags c)) reg_checkers.
+Theorem C17_overview_marks_agree :
+  map fst overview_marks = overview_rows /\ forall nm, In nm overview_marks -> mark_agrees nm = true.
+Proof. split; [vm_compute; reflexivity|]. apply forallb_forall. vm_compute. reflexivity. Qed.
+Print Assumptions C17_overview_marks_agree.
 
 Example C17_tables_nonempty :
   (100 <? sx_size ir_shipped)%N = true /\ (30 <? N.of_nat (List.length ir_groups))%N = true.
